@@ -1,7 +1,7 @@
 (* C03 — The detector error model is exactly the circuit's noise pushed onto detectors. *)
 From Coq Require Import List Bool String ZArith NArith QArith.
 Import ListNotations.
-Require Adj XorConv.
+Require Adj XorConv AdjGen TableAdj.
 Require Import Stab Act Spec SpecProofs Gen_GateTable Gen_RevTrack GenProofs_RevTrack.
 
 (* (1) Tie G: every unitary undo_* routine of the reverse tracker (translated from sparse_rev_frame_tracker.cc), applied per
@@ -15,7 +15,13 @@ Proof. exact rev_do1_correct. Qed.
 Theorem C03_revtrack_routines_correct_2q :
   forall g f, In (g, f) rev_do2 -> forall ts P, run2 f ts P = run2 (GenProofs_RevTrack.ftab2 g) ts P.
 Proof. exact rev_do2_correct. Qed.
-Print Assumptions C03_revtrack_routines_match_inverse_table.
+(* ... and for the WHOLE gate set: every unitary of the generated gate table (backward action = table action of the inverse gate,
+   which is what the translated undo routines are proved to be), single-qubit Pauli measurements and resets, any circuit, any n *)
+Theorem C03_adjoint_all_gates :
+  forall n (c : list TableAdj.tgop), Forall (TableAdj.tok n) c -> forall (D : AdjGen.det) (F : AdjGen.st),
+  AdjGen.parity_at D 0 (AdjGen.frun (map TableAdj.compile c) F) = AdjGen.pair_upto n (AdjGen.back (map TableAdj.compile c) D) F.
+Proof. exact TableAdj.adjoint_table_circuits. Qed.
+Print Assumptions C03_adjoint_all_gates. Print Assumptions C03_revtrack_routines_match_inverse_table.
 Print Assumptions C03_revtrack_routines_correct_2q.
 
 (* (2) Adjointness of backward sensitivity tracking and forward fault propagation (mini language H, CX, M, R; any number of
